@@ -1652,8 +1652,14 @@ class KMIPProxy(object):
              credential=None):
         operation = Operation(OperationEnum.MAC)
 
+        # Omit the unique identifier if none is given, so that the server
+        # uses the ID placeholder.
+        uuid = None
+        if unique_identifier is not None:
+            uuid = attr.UniqueIdentifier(unique_identifier)
+
         req_pl = payloads.MACRequestPayload(
-            unique_identifier=attr.UniqueIdentifier(unique_identifier),
+            unique_identifier=uuid,
             cryptographic_parameters=cryptographic_parameters,
             data=objects.Data(data))
         batch_item = messages.RequestBatchItem(operation=operation,
